@@ -23,6 +23,17 @@ func getWithVar(doc *Document, docs []*Document, ec *EvalContext, m any) (any, e
 }
 
 func get(doc *Document, docs []*Document, m any) (any, error) {
+	ret, err := getRef(doc, docs, m)
+	if err != nil {
+		return nil, err
+	}
+
+	// Callers merge into and rewrite what they get back. Hand out a copy so
+	// that the referenced subtree itself is never modified.
+	return deepClone(ret)
+}
+
+func getRef(doc *Document, docs []*Document, m any) (any, error) {
 	switch m2 := m.(type) {
 	case string:
 		return getPathFromString(doc.Data, docs, m2)
